@@ -352,6 +352,34 @@ def _plain_idioms(tree):
                 i += 1
 
 
+def _filtered_iteration(tree):
+    """``for x in (c for c in IT if p(c)): BODY`` is ``for x in IT: if
+    p(x): BODY`` (a lazy generator that only filters)."""
+    for node in ast.walk(tree):
+        if not isinstance(node, ast.For) or not isinstance(
+                node.iter, ast.GeneratorExp) or not isinstance(
+                    node.target, ast.Name):
+            continue
+        ge = node.iter
+        if len(ge.generators) != 1:
+            continue
+        g = ge.generators[0]
+        if g.is_async or not isinstance(g.target, ast.Name) or not (
+                isinstance(ge.elt, ast.Name) and ge.elt.id == g.target.id) \
+                or not g.ifs:
+            continue
+        sub = _SubstNames({g.target.id: ast.Name(id=node.target.id,
+                                                 ctx=ast.Load())})
+        tests = [sub.visit(_plain_copy(t)) for t in g.ifs]
+        test = tests[0] if len(tests) == 1 else ast.BoolOp(
+            op=ast.And(), values=tests)
+        iff = ast.If(test=test, body=node.body, orelse=[])
+        ast.copy_location(iff, node)
+        ast.copy_location(test, node)
+        node.iter = g.iter
+        node.body = [iff]
+
+
 def _negate(t):
     """``not t`` in its plainest spelling: double negation is removed and
     the exact complements is / is not, in / not in, == / != are flipped."""
@@ -381,6 +409,7 @@ def normalise(tree):
     Each step is semantics-preserving for any program."""
     _unroll_table_loops(tree)
     _plain_idioms(tree)
+    _filtered_iteration(tree)
     changed = True
     rounds = 0
     while changed and rounds < 50:
@@ -439,17 +468,23 @@ def normalise(tree):
             # 4. in a loop body, ``if c: continue`` followed by the rest of
             # the body  ->  ``if not c: <rest>``
             if isinstance(node, (ast.For, ast.While)):
-                blk = node.body
-                for i, st in enumerate(blk):
-                    if isinstance(st, ast.If) and not st.orelse and len(
-                            st.body) == 1 and isinstance(
-                                st.body[0], ast.Continue) and \
-                            i + 1 < len(blk):
-                        st.test = _negate(st.test)
-                        st.body = blk[i + 1:]
-                        del blk[i + 1:]
-                        changed = True
-                        break
+                # the loop body and, recursively, the body of an else-less
+                # if that ends such a block
+                tails = [node.body]
+                while tails[-1] and isinstance(
+                        tails[-1][-1], ast.If) and not tails[-1][-1].orelse:
+                    tails.append(tails[-1][-1].body)
+                for blk in tails:
+                    for i, st in enumerate(blk):
+                        if isinstance(st, ast.If) and not st.orelse and len(
+                                st.body) == 1 and isinstance(
+                                    st.body[0], ast.Continue) and \
+                                i + 1 < len(blk):
+                            st.test = _negate(st.test)
+                            st.body = blk[i + 1:]
+                            del blk[i + 1:]
+                            changed = True
+                            break
     ast.fix_missing_locations(tree)
     return tree
 
@@ -730,9 +765,11 @@ class Program(object):
             return
         new = {}
         for f in self.funcs:
-            if f.parent is None and f.cls is None and f.qbase not in table \
+            if f.parent is None and f.qbase not in table \
                     and not getattr(f, 'relocated_from', None):
-                new.setdefault(f.module.name, set()).add(f.name)
+                new.setdefault(f.module.name, set()).add(
+                    f.name if f.cls is None else '%s.%s' % (f.cls.name,
+                                                            f.name))
         done = False
         ext = set()
         for m in self.modules.values():
